@@ -61,6 +61,8 @@ impl Describer<'_> {
         let shape = t.shape().to_vec();
         let ints: Option<Vec<i64>> = match t {
             TVal::I32 { data, .. } if shape.len() <= 1 && data.len() <= 8 => Some(data.iter().map(|v| *v as i64).collect()),
+            TVal::U8 { data, .. } if shape.len() <= 1 && data.len() <= 8 => Some(data.iter().map(|v| *v as i64).collect()),
+            TVal::I8 { data, .. } if shape.len() <= 1 && data.len() <= 8 => Some(data.iter().map(|v| *v as i64).collect()),
             TVal::F32 { data, .. }
                 if is_const && is_float_const_ok && shape.len() <= 1 && data.len() <= 8 && data.iter().all(|v| v.is_finite() && v.fract() == 0.0 && v.abs() < 1.0e6) =>
             {
